@@ -44,6 +44,16 @@ def generate(seed, run, tier):
                 spec['obs']['name'] = r.choice(['raytracing', 'partially_occluded'])
                 if spec['obs']['area'][0][1] != 0:
                     spec['obs']['area'][0] = [spec['obs']['area'][0][0] - spec['obs']['area'][0][1], 0]
+        if spec['kind'] == 'hand' and 'Door' in spec['types']:
+            from gvsim.props.c10 import plant_door_scene
+
+            for wv in [spec['world']] + spec['pool_worlds']:
+                if r.random() < 0.5:
+                    plant_door_scene(r, wv, spec['colors'], spec['unique'], spec['types'])
+            if 'actuate_door' not in spec['chain'] and r.random() < 0.7:
+                spec['chain'].append('actuate_door')
+            if 'ACTUATE' not in spec['actions']:
+                spec['actions'].append('ACTUATE')
         clients.append(spec)
     rec['clients'] = clients
     ops = []
@@ -168,6 +178,9 @@ class PuritySim(Sim):
                 sh = shared(ev['s0'], ev['s1'])
                 if sh:
                     self.violate('purity', 'aliasing', 'functional_step', '+'.join(sh), f'input and next state share mutable components: {sh}')
+                else:
+                    # a user may hash any state at any time (dict / set keys): do so, it must stay harmless
+                    sut(lambda: (hash(ev['s1'].grid), hash(ev['s1'].agent), hash(ev['s0'].grid)))
         elif hook == 'on_obs':
             cl, ev = a
             if ev['w_after'] != ev['w']:
@@ -311,6 +324,17 @@ class PuritySim(Sim):
             self.violate('purity', 'copy_hash_differs', 'fast_copy', '-', f'hash(copy) == hash(original) is {hs!r}')
         elif shared(s, c):
             self.violate('purity', 'aliasing', 'fast_copy', '+'.join(shared(s, c)), 'copy shares mutable components')
+        else:
+            # a copy made by the harness' own copier (rebuilt from the descriptors) is an equal state with another
+            # history: it must equal and hash like the original too
+            rb = mk_state(world_of(s))
+            eq2 = sut(lambda: rb.grid == s.grid and rb.agent == s.agent)
+            hs2 = sut(lambda: (hash(rb.grid) == hash(s.grid), hash(rb.agent) == hash(s.agent)))
+            if eq2 is not True:
+                self.violate('purity', 'rebuilt_copy_not_equal', 'Grid.__eq__', '-', f'a structurally identical state compares {eq2!r}')
+            elif hs2 != (True, True):
+                self.violate('purity', 'equal_states_hash_differently', 'Grid.__hash__' if hs2 and hs2[0] is not True else 'Agent.__hash__', '-',
+                             f'a state and a structurally identical rebuilt copy hash differently ({hs2!r}): the hash depends on the state\'s history')
 
     def op_bad_action(self, cl, kind, k):
         pass
